@@ -143,6 +143,8 @@ def attribute(ck, pid, traces, fails, extra_props=()):
                 props.add("C11")  # with a zero-likelihood region the recorded beta=0 evidences must enter the mixture formula
             if cl == "NoRaise" and ev.get("site", "").startswith(("student.", "modes.", "cluster.", "train.", "resample.")):
                 props.add("C14")  # mutation could not run: no valid proposal modes / labels for this particle history
+            if cl == "LD_Rng":
+                props.add("C08")  # the random stream is part of what a checkpoint restores (the resumed run continues from that point)
             if cl == "MB_SameSlots":
                 props.add("C14")  # the kernel must receive the labels the resampler assigned (as well as the same records)
             if tr["meta"].get("resumed") and cl in RESUME_CLAUSES:
